@@ -309,6 +309,68 @@ def Adapter.apply {σ ε : Type} (a : Adapter) (S : Source σ Item ε) : Source 
 def applyChain {σ ε : Type} (c : List Adapter) (S : Source σ Item ε) : Source σ Item ε :=
   c.foldl (fun S a => a.apply S) S
 
+/-! ## `MapSource::into_iter` / `FilterMapSource::into_iter` (map.rs, filter_map.rs)
+
+`MapSourceIterator { source, map, buffer }` and `FilterMapSourceIterator` turn a mapped source back
+into an `Iterator<Item = Result<T, E>>` (which is again a `Source`, see `ofIter`).  `next`:
+
+    let mut remaining = true;
+    let mut buffer = take(self.buffer);
+    while buffer.is_empty() && remaining {
+        match self.source.for_some_item(|i| buffer.push_back(Ok((self.map)(i)))) {   // filter_map: push iff Some
+            Ok(b) => remaining = b,
+            Err(err) => { buffer.push_back(Err(err)); remaining = false; }            // AFTER the step's items
+        }
+    }
+    self.buffer = buffer;  self.buffer.pop_front()
+-/
+
+/-- state of the buffering iterator: the inner source and the buffer -/
+structure IterSt (σ ι ε : Type) where
+  source : σ
+  buffer : List (Except ε ι)
+
+/-- `buffer.push_back(Ok((self.map)(i)))` -/
+def mapPush {ι ι' ε : Type} (g : ι → ι') (b : List (Except ε ι')) (i : ι) : List (Except ε ι') :=
+  b ++ [.ok (g i)]
+
+/-- `if let Some(t) = (self.filter_map)(i) { buffer.push_back(Ok(t)) }` -/
+def filterMapPush {ι ι' ε : Type} (g : ι → Option ι') (b : List (Except ε ι')) (i : ι) : List (Except ε ι') :=
+  match g i with
+  | some t => b ++ [.ok t]
+  | none => b
+
+/-- the `while buffer.is_empty() && remaining` loop (fuel: at most `S.fuel` steps can be taken) -/
+def fillLoop {σ ι ι' ε : Type} (S : Source σ ι ε) (push : List (Except ε ι') → ι → List (Except ε ι')) :
+    Nat → σ → List (Except ε ι') → Bool → σ × List (Except ε ι')
+  | 0, s, buf, _ => (s, buf)
+  | n + 1, s, buf, remaining =>
+    if buf.isEmpty && remaining then
+      match forSomeItem S push s buf with
+      | (s', buf', .ok b) => fillLoop S push n s' buf' b
+      | (s', buf', .error e) => fillLoop S push n s' (buf' ++ [.error e]) false
+    else (s, buf)
+
+/-- `Iterator::next` of `MapSourceIterator` / `FilterMapSourceIterator` -/
+def iterNext {σ ι ι' ε : Type} (S : Source σ ι ε) (push : List (Except ε ι') → ι → List (Except ε ι'))
+    (st : IterSt σ ι' ε) : Option (Except ε ι') × IterSt σ ι' ε :=
+  match fillLoop S push (S.fuel st.source) st.source st.buffer true with
+  | (s', []) => (none, ⟨s', []⟩)
+  | (s', x :: rest) => (some x, ⟨s', rest⟩)
+
+/-- `impl<I, T, E> Source for I where I: Iterator<Item = Result<T, E>>` for an iterator given by its
+`next` function (api/src/source.rs; `iterSource` is the instance for a list) -/
+def ofIter {τ ι ε : Type} (next : τ → Option (Except ε ι) × τ) (fuel : τ → Nat) : Source τ ι ε where
+  tryForSomeItem f s k :=
+    match next s with
+    | (some (.error e), s') => (s', k, .error (.source e))
+    | (some (.ok t), s') =>
+      match f k t with
+      | (k', .error e) => (s', k', .error (.sink e))
+      | (k', .ok ()) => (s', k', .ok true)
+    | (none, s') => (s', k, .ok false)
+  fuel := fuel
+
 /-! ### Specification side: what an adapter / a chain *means* (a partial function on items) -/
 
 def Adapter.fn : Adapter → Item → Option Item
@@ -336,6 +398,40 @@ def Ev.errorOf {ι ε : Type} : List (Ev ι ε) → Option ε
   | [] => none
   | .ok _ :: rest => errorOf rest
   | .err _ e :: _ => some e
+
+/-- the closure pushing into the buffer for `a(..).into_iter()`; Rust offers `into_iter` on
+`MapSource` / `FilterMapSource` only — for the other adapters (never requested) the definition is
+total through the adapter's meaning -/
+def Adapter.push {ε : Type} (a : Adapter) : List (Except ε Item) → Item → List (Except ε Item) :=
+  match a with
+  | .mapItems f => mapPush f.eval
+  | .mapTriples f | .mapQuads f => mapPush (fun i => f.eval i)
+  | .filterMapItems p f => filterMapPush (fmEval p f)
+  | .filterMapTriples p f | .filterMapQuads p f => filterMapPush (fun i => fmEval p f i)
+  | a => filterMapPush a.fn
+
+def Adapter.hasIntoIter : Adapter → Bool
+  | .mapItems _ | .mapTriples _ | .mapQuads _ => true
+  | .filterMapItems .. | .filterMapTriples .. | .filterMapQuads .. => true
+  | _ => false
+
+/-- an upper bound on the number of results a script can still produce -/
+def Ev.bound {ι ε : Type} : List (Ev ι ε) → Nat
+  | [] => 0
+  | .ok is :: rest => is.length + bound rest
+  | .err is _ :: rest => is.length + 1 + bound rest
+
+/-- `S.a(..).into_iter()` used as a `Source` again (an iterator of `Result`s), over a batch source -/
+def intoIterSource {ε : Type} (S : Source (List (Ev Item ε)) Item ε) (a : Adapter) :
+    Source (IterSt (List (Ev Item ε)) Item ε) Item ε :=
+  ofIter (iterNext S a.push) (fun st => st.buffer.length + Ev.bound st.source + 1)
+
+/-- everything the iterator will yield from a script (it is not fused: it goes on after an error,
+as the underlying source does): `h` = meaning of the adapters up to and including the mapped one -/
+def resultsOf {ε : Type} (h : Item → Option Item) : List (Ev Item ε) → List (Except ε Item)
+  | [] => []
+  | .ok is :: rest => (is.filterMap h).map .ok ++ resultsOf h rest
+  | .err is e :: rest => (is.filterMap h).map .ok ++ .error e :: resultsOf h rest
 
 /-- what the property demands of a whole run: the consumer's callback is fed `xs` in order until
 it fails (then: `SinkError` with its error); otherwise the source's error, if any, as `SourceError` -/
